@@ -28,7 +28,7 @@ func recPaths(ti *mon.TraceIndex, rec string) []string {
 func c08(args []string) {
 	c := chk.New("C08", "exploration", args)
 	c.Build(false)
-	c.Rule("[pile-up] 60-110 inputs with a 1.5 s task at position five and enough slots for all: more than 50 finished tasks wait behind the head and must leave in arrival order; [repeated input sets] the same input reaches a process a second time while its first task has executed but still waits behind a slow head: it leaves the port where it was received; chains and trees of 1-3 processing stages with 3-40 items; recorder components in front of every in-port (single sender, so their log is the arrival order) and behind every out-port; task durations assigned so that completion order is the reverse or a random permutation of arrival order; slots in {2,4,16}, SCIPIPE_BUFSIZE in {1,3,128} (and 0 = unbuffered with a two-out-port process read by two recorders), a parameter source fanned out to the parameter ports of a slow and a quick process (values > buffer), slow downstream recorders (buffers fill up), some middle tasks skipped because their outputs pre-exist, fan-in of two upstreams through a recording merge point; bundled components between recorders (FileCombinator: first occurrences on each out-port in arrival order; IPSelectorSync: selected items in arrival order; MapToTags: pass-through, also with a map function that tags only every third file; sub-stream members in a joined placeholder, also with a file arriving twice) with file names whose arrival order is not lexicographic; oracle: sequence behind each out-port == image (through the reference's task -> out-path map) of the sequence recorded in front of the in-port; projection of a merged sequence onto each upstream == that upstream's own output sequence; every item passing a recorder behind a non-streaming out-port of a command / Go-function process must be a file at that moment (the recorder stats it on reception). distinct_nontrivial = runs in which the completion order of some process really differed from its arrival order (measured from the commands' end stamps), distinct by (shape, config, permutation)")
+	c.Rule("[pile-up] 60-110 inputs with a 1.5 s task at position five and enough slots for all (every third run with the process's Spawn field set to false): more than 50 finished tasks wait behind the head and must leave in arrival order; [repeated input sets] the same input reaches a process a second time while its first task has executed but still waits behind a slow head: it leaves the port where it was received; chains and trees of 1-3 processing stages with 3-40 items; recorder components in front of every in-port (single sender, so their log is the arrival order) and behind every out-port; task durations assigned so that completion order is the reverse or a random permutation of arrival order; slots in {2,4,16}, SCIPIPE_BUFSIZE in {1,3,128} (and 0 = unbuffered with a two-out-port process read by two recorders), a parameter source fanned out to the parameter ports of a slow and a quick process (values > buffer), slow downstream recorders (buffers fill up), some middle tasks skipped because their outputs pre-exist, fan-in of two upstreams through a recording merge point; bundled components between recorders (FileCombinator: first occurrences on each out-port in arrival order; IPSelectorSync: selected items in arrival order; MapToTags: pass-through, also with a map function that tags only every third file; sub-stream members in a joined placeholder, also with a file arriving twice) with file names whose arrival order is not lexicographic; oracle: sequence behind each out-port == image (through the reference's task -> out-path map) of the sequence recorded in front of the in-port; projection of a merged sequence onto each upstream == that upstream's own output sequence; every item passing a recorder behind a non-streaming out-port of a command / Go-function process must be a file at that moment (the recorder stats it on reception). distinct_nontrivial = runs in which the completion order of some process really differed from its arrival order (measured from the commands' end stamps), distinct by (shape, config, permutation)")
 	c.Assume("recorders are harness components written against the public BaseProcess/InPort/OutPort API")
 	rng := c.Rand("c08")
 	type job struct {
@@ -706,7 +706,7 @@ func c08duplicates(c *chk.Ctx) {
 // a few milliseconds, enough slots for everything to run - more than 50 finished tasks wait in the process's queue
 // until the head is collected, then leave in arrival order.
 func c08pileup(c *chk.Ctx) {
-	run.Parallel(c.Pick(2, 6), func(i int) {
+	run.Parallel(c.Pick(3, 6), func(i int) {
 		root := c.CaseDir()
 		defer c.Drop(root)
 		n := 60 + 10*i
@@ -718,7 +718,8 @@ func c08pileup(c *chk.Ctx) {
 			s.Sources[f] = f
 		}
 		s.Procs = append(s.Procs, src, &spec.Proc{Name: "RIN", Kind: spec.KRecorder},
-			&spec.Proc{Name: "P", Kind: []string{spec.KCmd, spec.KGoFunc}[i%2], Cmd: spec.BuildCmd("P", []spec.PortDecl{{Name: "in"}}, []spec.PortDecl{{Name: "out"}}, nil, nil, nil), Outs: []*spec.Out{{Port: "out", Pattern: "{i:in|basename}.P.out"}}},
+			// (every third run: the public Spawn field of the process is false)
+			&spec.Proc{Name: "P", Kind: []string{spec.KCmd, spec.KGoFunc}[i%2], NoSpawn: i%3 == 1, Cmd: spec.BuildCmd("P", []spec.PortDecl{{Name: "in"}}, []spec.PortDecl{{Name: "out"}}, nil, nil, nil), Outs: []*spec.Out{{Port: "out", Pattern: "{i:in|basename}.P.out"}}},
 			&spec.Proc{Name: "ROUT", Kind: spec.KRecorder})
 		s.Conns = append(s.Conns, &spec.Conn{From: "src.out", To: "RIN.in"}, &spec.Conn{From: "RIN.out", To: "P.in"}, &spec.Conn{From: "P.out", To: "ROUT.in"})
 		bh := vproto.Behaviours{vproto.TaskKey("P", []vproto.KV{{K: "in", V: src.Files[4]}}, nil, nil): {"sleep": "1500"}}
